@@ -944,13 +944,15 @@ class _ExecutorManagerThread(threading.Thread):
                 try:
                     pid, p = self.processes.popitem()
                     mp.util.debug(f"joining process {p.name} with pid {pid}")
-                    # A worker that died abruptly during the shutdown can
-                    # hold a lock of the call queue for ever: the others then
-                    # never receive their sentinel. Do not wait for those.
+                    # A worker that was killed during the shutdown can hold a
+                    # lock of the call queue for ever: the others then never
+                    # receive their sentinel. Do not wait for those. (A
+                    # worker that merely ends with an error code while the
+                    # others run their exit handlers is no reason to kill.)
                     p.join(timeout=0.1)
                     while p.is_alive():
                         if self.executor_flags.broken is not None or any(
-                            q.exitcode not in (None, 0) for q in all_processes
+                            (q.exitcode or 0) < 0 for q in all_processes
                         ):
                             kill_process_tree(p)
                         p.join(timeout=0.1)
